@@ -202,7 +202,7 @@ Definition run_ans (inp : list Z) : list Z :=
       | kind :: r2 =>
           let '(ws, r3) := read_list r2 in
           let ws := map zN ws in
-          match kind with
+          match kind mod 10 with       (* +10: the iterator-backed route to the same constructor *)
           | 0 => ans_loop (length r3) c ms r3 ans_empty None
           | 1 => match ans_from_compressed c ws with
                  | Some a => ans_loop (length r3) c ms r3 a None
